@@ -228,8 +228,8 @@ fn source(ni: usize, no: usize, na: usize, nr: usize, marker: &str, rows: bool, 
         let ri = if multi == 9 || multi == 11 { r / 2 } else { r };
         let ro = if multi == 10 || multi == 11 { r / 2 } else { r };
         (
-          (0..ni).map(|k| if multi == 6 && r == 0 && k == 0 { l("<5,\n>7") } else { l(IN_ENTRIES[(ri * 2 + k) % IN_ENTRIES.len()]) }).collect(),
-          (0..no).map(|k| if multi == 7 && r == 0 && k == 0 { l("1 +\n1") } else { l(OUT_ENTRIES[(ro + k * 2) % OUT_ENTRIES.len()]) }).collect(),
+          (0..ni).map(|k| if multi == 6 && r == 0 && k == 0 { l("<5,\n>7") } else if multi == 13 && r + 1 == nr && k == 0 { l("<5,\n6,\n>7") } else { l(IN_ENTRIES[(ri * 2 + k) % IN_ENTRIES.len()]) }).collect(),
+          (0..no).map(|k| if multi == 7 && r == 0 && k == 0 { l("1 +\n1") } else if multi == 12 && r == 0 && k == 0 { l("1 +\n1 +\n1") } else { l(OUT_ENTRIES[(ro + k * 2) % OUT_ENTRIES.len()]) }).collect(),
           (0..na).map(|k| if multi == 8 && r == 0 && k == 0 { l("two\nlines") } else { l(ANN_ENTRIES[(r + k) % ANN_ENTRIES.len()]) }).collect(),
         )
       })
@@ -609,7 +609,7 @@ pub fn run() {
               if *no == 1 && label {
                 continue;
               }
-              for multi in 0..=11usize {
+              for multi in 0..=13usize {
                 // a two-line cell needs its class to exist
                 if (multi == 2 || multi == 4) && !values {
                   continue;
@@ -620,12 +620,12 @@ pub fn run() {
                 if (multi == 5 || multi == 8) && *na == 0 {
                   continue;
                 }
-                if multi >= 9 && *nr < 2 {
+                if (9..=11).contains(&multi) && *nr < 2 {
                   continue;
                 }
                 let t = source(*ni, *no, *na, *nr, marker, rows, name, values, label, multi);
                 for (sk, style) in STYLES.iter().enumerate() {
-                  if style.merge_equal_entries && multi < 9 {
+                  if style.merge_equal_entries && !(9..=11).contains(&multi) {
                     continue;
                   }
                   // name box variants only matter with a name; the merged hit policy cell only for columns with values
@@ -653,6 +653,9 @@ pub fn run() {
                       9 if style.merge_equal_entries => "equal-input-entries-of-consecutive-rules-merged",
                       10 if style.merge_equal_entries => "equal-output-entries-of-consecutive-rules-merged",
                       11 if style.merge_equal_entries => "equal-entries-of-consecutive-rules-merged",
+                      // (the rule number stands in the middle line of a cell three lines high)
+                      12 => "three-line-output-entry",
+                      13 => "three-line-input-entry-of-the-last-rule",
                       _ => "equal-entries-of-consecutive-rules",
                     }
                   );
